@@ -35,12 +35,16 @@ func runDrain(seed uint64, scale int, out string, _ string) *summary {
 	//       resumes: its transition to processing-to-required fails and it must start over;
 	//   V2  the same without parking the writer (its transition wins; the maintainer must reschedule);
 	//   V3  the writer is parked after loading "idle" while another writer runs a complete cycle;
-	//   V4  writes made from inside a Hottest / Coldest iteration (the view holds the eviction lock).
+	//   V4  writes made from inside a Hottest / Coldest iteration (the view holds the eviction lock);
+	//   V5  the executor task has to wait for the eviction lock (held by an explicit CleanUp), then a
+	//       writer flags more work during its maintenance: it must unlock before it reschedules.
 	scripted := 60 * scale
 	stranded := 0
 	for sc := 0; sc < scripted && stranded < 6; sc++ {
-		variant := sc % 4
-		var armed2, armed8 atomic.Int32
+		variant := sc % 5
+		var armed2, armed8, armed5 atomic.Int32
+		arrived5 := make(chan struct{}, 1)
+		release5 := make(chan struct{})
 		var passed6 atomic.Int64
 		arrived2, arrived8 := make(chan struct{}, 1), make(chan struct{}, 1)
 		release2, release8 := make(chan struct{}), make(chan struct{})
@@ -55,6 +59,11 @@ func runDrain(seed uint64, scale int, out string, _ string) *summary {
 				if armed8.CompareAndSwap(1, 0) {
 					arrived8 <- struct{}{}
 					<-release8
+				}
+			case 5:
+				if armed5.CompareAndSwap(1, 0) {
+					arrived5 <- struct{}{}
+					<-release5
 				}
 			case 6:
 				passed6.Add(1)
@@ -108,6 +117,51 @@ func runDrain(seed uint64, scale int, out string, _ string) *summary {
 				close(release8)
 			}
 			waitCh(doneB)
+		case 4:
+			// V5: the executor task finds the eviction lock held by an explicit CleanUp and has to wait for
+			// it (the token already taken by its spawner); when it finally runs maintenance a writer flags
+			// "more work" (processing-to-required); the task must release the lock BEFORE it reschedules
+			armed5.Store(1)
+			c.Set(1, 1) // spawns the task, which parks at the start of drainBuffers
+			if !waitCh(arrived5) {
+				armed5.Store(0)
+				ok = false
+				break
+			}
+			armed2.Store(1)
+			doneC := make(chan struct{})
+			go func() { c.CleanUp(); close(doneC) }() // takes the lock, drains, parks before its final transition
+			if !waitCh(arrived2) {
+				armed2.Store(0)
+				close(release5)
+				ok = false
+				break
+			}
+			close(release5) // the task: TryLock fails, token taken -> waits for the lock
+			time.Sleep(500 * time.Microsecond)
+			release2b := make(chan struct{})
+			arrived2b := make(chan struct{}, 1)
+			var armed2b atomic.Int32
+			armed2b.Store(1)
+			prev := otter.VerifHook
+			otter.VerifHook = func(id int) {
+				if id == 2 && armed2b.CompareAndSwap(1, 0) {
+					arrived2b <- struct{}{}
+					<-release2b
+					return
+				}
+				prev(id)
+			}
+			close(release2) // CleanUp finishes; the task gets the lock and parks before ITS final transition
+			waitCh(doneC)
+			if waitCh(arrived2b) {
+				c.Set(2, 2) // a write during the task's maintenance: processing-to-idle -> processing-to-required
+				close(release2b)
+			} else {
+				armed2b.Store(0)
+				ok = false
+			}
+			close(doneB)
 		case 3:
 			// V4: a write made while an eviction-order view (Hottest / Coldest: SaveCacheTo iterates one)
 			// holds the eviction lock cannot start maintenance itself; the view must hand over when it ends
